@@ -322,6 +322,26 @@ pub fn drive(args: &HashMap<String, String>) {
             gen_srcs.push(JobSrc { key: format!("rand{}:{}", i, sigils[k]), text: p.render(sigils[k]), file: "*verif*".to_string(), search: vec![] });
         }
     }
+    // (a generated program whose compilation takes more than 10 s -- nested inline calls copy their arguments once per use --
+    //  would be compiled again in a fresh process for every counter: left out, as in C10)
+    {
+        let jobs: Vec<Value> = gen_srcs.iter().map(|j| json!({"op": "compile", "text": j.text, "optimize": false})).collect();
+        let cfg = crate::pool::PoolCfg { batch: 1, timeout: std::time::Duration::from_secs(10), ..crate::pool::PoolCfg::default() };
+        let res = crate::pool::run_jobs_unconfirmed(jobs, &cfg);
+        let mut keep = vec![];
+        let mut slow = 0;
+        for (j, r) in gen_srcs.into_iter().zip(res.iter()) {
+            if r.get("timeout").is_some() {
+                slow += 1;
+            } else {
+                keep.push(j);
+            }
+        }
+        if slow > 0 {
+            eprintln!("[drive-history] {slow} generated program(s) left out: compilation takes more than 10 s");
+        }
+        gen_srcs = keep;
+    }
     // 3b. de-inlining ties: two nested lets of which the inner one only renames the outer one's value, so that "both let
     //     functions kept separate" and "only the inner one" are programs of (nearly) the same size; the padding string moves
     //     the sizes across each other.  Whatever order the search tries its candidates in must not depend on the length of
